@@ -253,3 +253,34 @@ Theorem C13_seg_at_unfold :
   e_left (getE st i) = true /\ exists o, e_other (getE st i) = Some o /\
     cv (e_point (getE st i)) = Some (ax, ay) /\ cv (e_point (getE st o)) = Some (bx, by_) /\ sb = e_is_subject (getE st i).
 Proof. exact seg_at_spec. Qed.
+
+(** ** the coverage clause as a verified per-run certificate (for the runs of the
+    floating-point instances; at the exact instance the clause is a theorem for every input:
+    C13_subsegments_cover_their_edges).  [cover_check E S] walks, for every non-degenerate edge
+    of [E], the segments of [S] that carry its operand flag and have both end points on it, end
+    to end from its start to its end, using every one of them. *)
+From GB Require Import Cert13Cover.
+Theorem C13_cover_certificate_sound :
+  forall (E S : list edge), cover_check E S = true ->
+  forall ax ay bx by_ se, In (ax, ay, (bx, by_), se) E -> ~ qeqp ax ay bx by_ ->
+  forall x y, SplitCover.on_seg ax ay bx by_ x y ->
+  exists px py qx qy, In (px, py, (qx, qy), se) S /\
+    SplitCover.on_seg ax ay bx by_ px py /\ SplitCover.on_seg ax ay bx by_ qx qy /\ SplitCover.on_seg px py qx qy x y.
+Proof. exact cover_check_sound. Qed.
+
+Theorem C13_cover_run_sound :
+  forall (N : Num) (cv : pt N -> option (Q * Q)) (A B : list (FillQueue.polygon N)) (st : store N) (evs : list eid),
+  cover_run N cv A B st evs = true ->
+  exists E Sg, input_edges_cv N cv A B = Some E /\ segments_of N cv st evs = Some Sg /\
+    forall ax ay bx by_ se, In (ax, ay, (bx, by_), se) E -> ~ qeqp ax ay bx by_ ->
+    forall x y, SplitCover.on_seg ax ay bx by_ x y ->
+    exists px py qx qy, In (px, py, (qx, qy), se) Sg /\
+      SplitCover.on_seg ax ay bx by_ px py /\ SplitCover.on_seg ax ay bx by_ qx qy /\ SplitCover.on_seg px py qx qy x y.
+Proof. exact cover_run_sound. Qed.
+
+Theorem C13_cover_certificate_example :
+  cover_check (cons (0, 0, (4, 4), true) nil)
+    (cons (2, 2, (4, 4), true) (cons (0, 0, (2, 2), true) (cons (0, 0, (4, 4), false) nil))) = true /\
+  cover_check (cons (0, 0, (4, 4), true) nil) (cons (0, 0, (2, 2), true) (cons (3, 3, (4, 4), true) nil)) = false /\
+  cover_check (cons (0, 0, (4, 4), true) nil) (cons (0, 0, (3, 3), true) (cons (2, 2, (4, 4), true) nil)) = false.
+Proof. exact cover_example. Qed.
